@@ -1,7 +1,7 @@
 // BOUNDED native twin for C10 (never counted as proved): MoveGenerator::count_positions returns the sum over
 // k = 1..d+1 of the number of legal move sequences of length k (20, 420, 9322, 206603 from the initial position),
 // for rayon pools of several sizes and for fresh and reused generators.
-// Bound: 4 positions x depths 0..3 (start position) / 0..2 (others) x pools {1, 2, 3, 4, 7, 16}.
+// Bound: 7 positions (incl. a stalemated and a checkmated root) x depths 0..3 (start position) / 0..2 (others) x pools {1, 2, 3, 4, 7, 16}.
 include!("common.rs");
 use common::bitboard::square::*;
 
@@ -30,6 +30,10 @@ fn count_positions_matches_the_reference_count_for_every_pool_size() {
         ("opening 5 (48-ish moves)".into(), opening(5, 14), 2),
         ("KRPkr".into(), setup(&[(E1, Piece::King, Color::White), (A1, Piece::Rook, Color::White), (B7, Piece::Pawn, Color::White),
             (E8, Piece::King, Color::Black), (H8, Piece::Rook, Color::Black)], Color::White), 2),
+        // roots without a legal move (the count is 0 at every depth) and one ply before such a position
+        ("stalemated root".into(), setup(&[(A8, Piece::King, Color::Black), (B6, Piece::Queen, Color::White), (C7, Piece::King, Color::White)], Color::Black), 2),
+        ("checkmated root".into(), setup(&[(A8, Piece::King, Color::Black), (A7, Piece::Queen, Color::White), (B6, Piece::King, Color::White)], Color::Black), 2),
+        ("mate in one".into(), setup(&[(A8, Piece::King, Color::Black), (H7, Piece::Queen, Color::White), (B6, Piece::King, Color::White)], Color::White), 2),
     ];
     for (name, b0, max_depth) in positions {
         let color = b0.turn();
